@@ -524,18 +524,20 @@ func Resolve(at ssa.Instruction, v ssa.Value) ssa.Value {
 // pred is established. (The shape an inlined predicate helper leaves behind:
 // `return true` on one path, `return x == y` on another.)
 func HoldsAt(at ssa.Instruction, pred func(Fact) bool) bool {
-	return holdsIn(FactsAtInstr(at), pred, 0)
+	return holdsIn(FactsAtInstr(at), pred, 0, map[*ssa.Phi]bool{})
 }
 
 // HoldsGiven is HoldsAt over an explicit set of facts (e.g. the facts at a
 // return extended by "the returned value is true").
-func HoldsGiven(fs []Fact, pred func(Fact) bool) bool { return holdsIn(fs, pred, 0) }
+func HoldsGiven(fs []Fact, pred func(Fact) bool) bool {
+	return holdsIn(fs, pred, 0, map[*ssa.Phi]bool{})
+}
 
-func holdsIn(fs []Fact, pred func(Fact) bool, depth int) bool {
+func holdsIn(fs []Fact, pred func(Fact) bool, depth int, busy map[*ssa.Phi]bool) bool {
 	if HasFact(fs, pred) {
 		return true
 	}
-	if depth > 3 {
+	if depth > 6 {
 		return false
 	}
 	for _, f := range fs {
@@ -547,6 +549,12 @@ func holdsIn(fs []Fact, pred func(Fact) bool, depth int) bool {
 		if !ok {
 			continue
 		}
+		if busy[phi] {
+			// a flag carried around a loop: it has the tested value here only if it
+			// got it on an earlier pass, which is being established
+			return true
+		}
+		busy[phi] = true
 		all := true
 		n := 0
 		for i, e := range phi.Edges {
@@ -558,11 +566,12 @@ func holdsIn(fs []Fact, pred func(Fact) bool, depth int) bool {
 			if _, isC := ConstBool(e); !isC {
 				edgeFacts = append(append([]Fact{}, edgeFacts...), Fact{Cond: e, Pol: rel.Pol})
 			}
-			if !holdsIn(edgeFacts, pred, depth+1) {
+			if !holdsIn(edgeFacts, pred, depth+1, busy) {
 				all = false
 				break
 			}
 		}
+		delete(busy, phi)
 		if all && n > 0 {
 			return true
 		}
